@@ -287,7 +287,7 @@ def small_domains(sx, which, arg=0):
 
 
 def jobs(tier):
-    o = dict(timeout_ms=30000, budget_s=600, twin=1)
+    o = dict(timeout_ms=15000, budget_s=(300 if tier == 'quick' else 600), twin=1)
     k = 0
     for lay in gw_layouts(tier):
         k += 1
